@@ -246,8 +246,8 @@ func ReadSuite(raw string, allowUnitlessT bool) (Reading, Class) {
 			last = pos
 		}
 	}
-	if len(r.TimeSteps) == 1 {
-		r.Cfg.TimeStep = r.TimeSteps[0]
+	if len(r.TimeSteps) >= 1 {
+		r.Cfg.TimeStep = r.TimeSteps[0] // for the unit-less form: the first admissible reading
 	}
 	return r, cls
 }
